@@ -11,6 +11,7 @@ CONSTANTS NKeys,      \* key ranks are 1..NKeys (rank 1 is the empty key)
           Preds,      \* filter predicates
           Ops,        \* enabled action kinds
           Bulks,      \* prepared slices appended in one step (boundary sizes 0..13); {} when unused
+          NRoutes,    \* [type |-> number of public constructor routes that write a value of that type]
           MaxList,    \* bound on the caller's slice
           MinList,    \* builds need at least this many items (0 when exhaustive; steers -simulate)
           MaxOps      \* bound on the number of non-Push actions
@@ -27,6 +28,7 @@ Attrs == {[k |-> k, t |-> v.t, x |-> v.x] : k \in 1..NKeys, v \in Vals}
 
 (* observable outputs of an action; c is the Set the action produced *)
 Out(c) == [len |-> Len(c), look |-> LookAll(c, NKeys), iter |-> Indexed(c), get |-> GetAll(c), selfEq |-> TRUE,
+           encEq |-> TRUE, jsonEq |-> TRUE,
            bag |-> <<>>, dropped |-> <<>>, orig |-> <<>>, merged |-> <<>>, eq |-> TRUE]
 
 Init == /\ pend = <<>> /\ cur = <<>> /\ table = <<>> /\ nops = 0
@@ -47,6 +49,19 @@ Bulk(l) == /\ "Bulk" \in Ops /\ nops = 0 /\ pend = <<>> /\ l # <<>>
            /\ UNCHANGED <<cur, table, nops>>
 
 Op == nops < MaxOps /\ nops' = nops + 1
+
+(* Constructor routes.  The same typed value can be written through several public constructors  *)
+(* (attribute.X(k, v), Key(k).X(v), KeyValue{k, XValue(v)}; Int / Int64, IntSlice / Int64Slice,   *)
+(* Stringer / String; nil, empty, zero-length-resliced and spare-capacity slices).  In the model  *)
+(* they are ONE value: the route is a dimension of the concretization only.  Twin builds the     *)
+(* one-attribute Set twice, through routes r1 and r2: the two Sets are Equal (both ways), share  *)
+(* one StreamTable entry and have the same encoding and JSON.                                     *)
+Twin(a, r1, r2) == /\ "Twin" \in Ops /\ nops = 0 /\ pend = <<>> /\ Op
+                   /\ cur' = Canon(<<a>>)
+                   /\ table' = Bump(Bump(table, cur'), cur')
+                   /\ act' = [op |-> "Twin", a |-> a, r1 |-> r1, r2 |-> r2]
+                   /\ out' = [Out(cur') EXCEPT !.eq = EqOK(cur', cur', TRUE)]
+                   /\ UNCHANGED pend
 
 (* NewSet / NewSetWithSortable: the Set is Canon(pend); the caller's slice still holds every input *)
 New(how) == /\ "New" \in Ops /\ Op /\ Len(pend) >= MinList
@@ -90,8 +105,11 @@ Record == /\ "Record" \in Ops /\ Op
           /\ out' = Out(cur)
           /\ UNCHANGED <<pend, cur>>
 
+BulkAny == \E l \in Bulks : Bulk(l)
+TwinAny == \E a \in Attrs : \E r1, r2 \in 1..NRoutes[a.t] : r1 < r2 /\ Twin(a, r1, r2)
+
 Next == \/ \E a \in Attrs : Push(a)
-        \/ \E l \in Bulks : Bulk(l)
+        \/ BulkAny \/ TwinAny
         \/ \E h \in {"NewSet", "Sortable"} : New(h)
         \/ \E h \in {"Filtered", "SortableFiltered"}, p \in Preds : NewF(h, p)
         \/ \E p \in Preds : Filter(p)
